@@ -455,6 +455,14 @@ static int child_fit(int wfd, const FitCase& fc)
   return 0;
 }
 
+// estimated load (CPU seconds) already dealt to each shard by the parts enumerated so far (same values in every shard: pure function of the menus)
+static std::vector<double>& shard_load(int nshards)
+{
+  static std::vector<double> load;
+  if ((int)load.size() != nshards) load.assign(nshards, 0.);
+  return load;
+}
+
 // one fit in a forked child; its observations come back as lines (see child_fit)
 static void run_one_fit(Ctx& C, const FitCase& fc, uint64_t id)
 {
@@ -584,10 +592,10 @@ static void run_fit_part(Ctx& C, int nvar)
           return v.vp == 0 && a == 0 && (dflt || ((fc.icons == 5 || fc.icons == 3) && fc.iopt == 0 && (v.pat[0] % 2) == 0));  // 8 + 8 fits
         }
         if (v.kind == 1)
-          return (dflt && a == 0 && (v.empty < 0 || v.empty == 1)) || (dflt && (a == 2 || a == 3) && v.empty < 0 && (v.code % 4) == 0) ||
+          return (dflt && a == 0 && v.empty < 0) || (dflt && (a == 2 || a == 3) && v.empty < 0 && (v.code % 8) == 0) ||
                  (!dflt && a == 0 && v.empty < 0 && (v.code % 64) == (cfg % 64)) ||
                  (fc.icons == 7 && fc.iopt == 0 && a == 0 && v.empty < 0 && (v.code % 16) == 0);  // constant total sill: 16 more codes
-        return a == 0 && (dflt || ((v.pat[0] == 0 || v.pat[0] == 6) && v.vp != 3));
+        return a == 0 && (dflt || (v.pat[0] == 0 && v.vp != 3) || (v.pat[0] == 6 && v.vp == 2 && fc.iopt == 0));
       }
       if (v.nvar == 2)
       {
@@ -653,7 +661,8 @@ static void run_fit_part(Ctx& C, int nvar)
       if (heavyM(fc) || heavyC(fc)) nheavy++;
     }
     std::stable_sort(all.begin(), all.end(), [](const Acc& x, const Acc& y) { return x.est > y.est; });
-    std::vector<double> load(C.nshards, 0.);
+    std::vector<double>& load = shard_load(C.nshards);  // carried over from the previous parts: a shard that got the long fits of one part gets less of the next
+    double tot0 = 0; for (double l : load) tot0 += l;
     for (auto& c : all)
     {
       int best = 0;
@@ -664,7 +673,7 @@ static void run_fit_part(Ctx& C, int nvar)
     C.ps().space += all.size();
     if (C.shard == 0)
     {
-      double tot = 0; for (double l : load) tot += l;
+      double tot = -tot0; for (double l : load) tot += l;
       C.note("menu: " + std::to_string(all.size()) + " fits (" + std::to_string(nheavy) + " of the heavy classes) out of a product of " + std::to_string(sp.size()) +
              "; estimated " + std::to_string((int)tot) + " CPU-s = " + std::to_string((int)(tot / C.nshards)) + " s per shard");
     }
